@@ -624,3 +624,68 @@ func mkOp(rnd *rand.Rand, t int, p []byte, vals []string) ROp {
 	}
 	return ROp{Op: "del", T: t, P: bridge.Chars(p)}
 }
+
+// AOp is one abstract action of a behaviour of MPTPersist.tla.
+type AOp struct {
+	A  string `json:"a"`
+	K  int    `json:"k"`
+	V  string `json:"v"`
+	PV int64  `json:"pv"`
+}
+
+var persistPaths = []string{"0000", "0011", "01", "1000"}
+
+// TranslatePersist maps a behaviour of the design model (start / op / savebatch / recorddead / startprune /
+// prunedelete / prunedrop / crash) to executor operations: a crash between SaveBatch and RecordDead, or inside the
+// prune's delete stream, becomes an armed crash of the following storage operation.
+func TranslatePersist(aops []AOp) RHist {
+	h := RHist{Persist: true, Quiet: true}
+	var done int64
+	for i := 0; i < len(aops); i++ {
+		a := aops[i]
+		switch a.A {
+		case "start":
+			h.Ops = append(h.Ops, ROp{Op: "round", Ver: done + 1})
+		case "op":
+			p := bridge.Chars([]byte(persistPaths[a.K%len(persistPaths)]))
+			if a.V == "" {
+				h.Ops = append(h.Ops, ROp{Op: "del", T: 0, P: p})
+			} else {
+				h.Ops = append(h.Ops, ROp{Op: "ins", T: 0, P: p, V: a.V})
+			}
+		case "savebatch":
+			if i+1 < len(aops) && aops[i+1].A == "crash" {
+				h.Ops = append(h.Ops, ROp{Op: "crash", K: 1}, ROp{Op: "save"})
+				i++
+			} else {
+				h.Ops = append(h.Ops, ROp{Op: "save"})
+				done++
+				if i+1 < len(aops) && aops[i+1].A == "recorddead" {
+					i++
+				}
+			}
+		case "startprune":
+			j := 0
+			k := i + 1
+			for k < len(aops) && aops[k].A == "prunedelete" {
+				j++
+				k++
+			}
+			if k < len(aops) && aops[k].A == "crash" {
+				if j > 1 {
+					j = 1
+				}
+				h.Ops = append(h.Ops, ROp{Op: "crash", K: j}, ROp{Op: "prune", Ver: a.PV})
+				i = k
+			} else {
+				h.Ops = append(h.Ops, ROp{Op: "prune", Ver: a.PV})
+				if k < len(aops) && aops[k].A == "prunedrop" {
+					i = k
+				} else {
+					i = k - 1
+				}
+			}
+		}
+	}
+	return h
+}
